@@ -107,7 +107,7 @@ package ops
 //@ spec dims_positive(t tensor.Tensor) bool = forall k :: 0 <= k && k < rank(t) ==> dim(t, k) >= 1
 
 //@ func AddExtraDimsToTensor
-//@   tags C14,C02
+//@   tags C14,C02,C03,C04,C05,C06,C08,C10
 //@   requires originalT != nil
 //@   ensures err == nil && result != nil && fresh(result) && allocated(result)
 //@   ensures rank(result) == rank(originalT) + maxi(nExtraDims, 0) && dtype(result) == dtype(originalT) && contents(result) == contents(originalT)
@@ -120,7 +120,7 @@ package ops
 //@   loop 1 invariant 0 <= i && (i <= nExtraDims || i == 0) && len(newShape) == i && newShape != nil && base(newShape) != shaperef(t) && fresh(newShape) && (forall k :: 0 <= k && k < i ==> newShape[k] == 1)
 
 //@ func repeatTensorsForMutltidirBroadcast
-//@   tags C14,C02
+//@   tags C14,C02,C03,C04,C05,C06,C08,C10
 //@   requires A != nil && B != nil && rank(A) == rank(B)
 //@   scope extents_positive: dims_positive(A) && dims_positive(B)
 //@   ensures compatible_iff_ok: (err == nil) <==> (forall k :: 0 <= k && k < rank(A) ==> compat_dim(dim(A, k), dim(B, k)))
@@ -137,7 +137,7 @@ package ops
 //@   loop 1 invariant (forall k :: axis < k && k < nDims ==> dim(A0, k) == dim(B0, k)) ==> A == A0 && B == B0
 
 //@ func MultidirectionalBroadcast
-//@   tags C14,C02,C03
+//@   tags C14,C02,C03,C04,C05,C06,C08,C10
 //@   requires A != nil && B != nil
 //@   scope extents_positive: dims_positive(A) && dims_positive(B)
 //@   ensures compatible_iff_ok: (err == nil) <==> bcompat(A, B)
@@ -151,7 +151,7 @@ package ops
 //@   ensures same_shape_is_identity: err == nil && rank(A) == rank(B) && (forall k :: 0 <= k && k < rank(A) ==> dim(A, k) == dim(B, k)) ==> result0 == A && result1 == B
 
 //@ func repeatTensorsForUnidirBroadcast
-//@   tags C14,C02
+//@   tags C14,C02,C03,C04,C05,C06,C08,C10
 //@   requires A != nil && B != nil && rank(A) == rank(B)
 //@   scope extents_positive: dims_positive(A) && dims_positive(B)
 //@   ensures compatible_iff_ok: (err == nil) <==> (forall k :: 0 <= k && k < rank(A) ==> dim(B, k) == dim(A, k) || dim(B, k) == 1)
@@ -168,7 +168,7 @@ package ops
 //@   loop 1 invariant (forall k :: axis < k && k < rank(A) ==> dim(A, k) == dim(B0, k)) ==> B == B0
 
 //@ func UnidirectionalBroadcast
-//@   tags C14,C02,C03,C10
+//@   tags C14,C02,C03,C10,C04,C05,C06,C08
 //@   scope operands_present: A != nil && B != nil
 //@   scope extents_positive: dims_positive(A) && dims_positive(B)
 //@   ensures compatible_iff_ok: (err == nil) <==> (rank(B) <= rank(A) &&
@@ -378,14 +378,14 @@ package ops
 //@   modifies cont(t1)
 
 //@ func Tanh
-//@   tags C10,C02
+//@   tags C10,C02,C06
 //@   requires X != nil
 //@   ensures new_result: err == nil ==> result != nil && fresh(result)
 //@   ensures float32_elementwise: dtype(X) == Float32 ==> err == nil && same_shape(result, X) && dtype(result) == Float32 && gen32(result) == math32_Tanh(gen32(X))
 //@   ensures float64_elementwise: dtype(X) == Float64 ==> err == nil && same_shape(result, X) && dtype(result) == Float64 && gen64(result) == math_Tanh(gen64(X))
 
 //@ func Sigmoid
-//@   tags C10,C02
+//@   tags C10,C02,C06
 //@   requires X != nil
 //@   ensures new_result: err == nil ==> result != nil && fresh(result)
 //@   ensures float32_elementwise: dtype(X) == Float32 ==> err == nil && same_shape(result, X) && dtype(result) == Float32 &&
@@ -394,7 +394,7 @@ package ops
 //@          gen64(result) == fone64() / (fone64() + math_Exp(fneg64(gen64(X))))
 
 //@ func ReLU
-//@   tags C10,C02
+//@   tags C10,C02,C06
 //@   requires X != nil
 //@   ensures new_result: err == nil ==> result != nil && fresh(result)
 //@   ensures float32_shape_and_type: dtype(X) == Float32 ==> err == nil && same_shape(result, X) && dtype(result) == Float32
